@@ -8,6 +8,8 @@ use crate::utils::expressions_as_statement;
 
 use super::verify_no_rule_properties;
 
+use std::collections::HashSet;
+
 #[derive(Default)]
 struct RemoveUnusedVariableProcessor {
     evaluator: Evaluator,
@@ -120,7 +122,7 @@ impl NodeProcessor for RemoveUnusedVariableProcessor {
                                 *statement = expressions_as_statement(values);
                                 true
                             }
-                        } else if usages.iter().any(|used| !used) {
+                        } else if usages.iter().any(|used| !used) && !repeats_a_name(assign) {
                             let mut assignments: Vec<_> = assign
                                 .iter_variables()
                                 .zip(usages.iter())
@@ -212,6 +214,15 @@ impl NodeProcessor for RemoveUnusedVariableProcessor {
             });
         }
     }
+}
+
+/// The rebuilt declaration lists its variables in another order: when a name is declared
+/// twice (`local a, b, a = ...`) another variable would become the visible one.
+fn repeats_a_name(assign: &LocalAssignStatement) -> bool {
+    let mut names = HashSet::new();
+    !assign
+        .iter_variables()
+        .all(|variable| names.insert(variable.get_name()))
 }
 
 pub const REMOVE_UNUSED_VARIABLE_RULE_NAME: &str = "remove_unused_variable";
